@@ -6,7 +6,7 @@ from core import cq, fr, fl, dy
 import leafgen as lg
 
 ID = 'C07'
-GEN = ['kernels']
+GEN = ['kernels', 'validators']
 PROPS = 'Props/C07.v'
 MODEL_VO = ['Model/Dev.v']
 CASE_TYPE = 'leafdev Q * list Q * list Q * Q'
@@ -44,7 +44,7 @@ def in_finding(L):
     b = L['b']
     return any(v < 1 for v in (b if isinstance(b, list) else [b]))
   if L['cls'] == 'SDevice':
-    return L['c2'] > L['c1']
+    return L['c1'] == 0 and L['c2'] > 0
   if L['cls'] == 'TDevice':
     return L['efficiency'] != 1 and any(lo < 0 for lo, hi in L['bounds']) and any(hi > 0 for lo, hi in L['bounds'])
   return False
@@ -55,13 +55,42 @@ def finding_matches(f, c):
   return f.get('match', {}).get('class') == L['cls'] and in_finding(L)
 
 
+def adversarial(rng, L):
+  """Perturb a configuration towards what a validator should reject (used by the failing-input search only: if a loosened
+  validator accepts it, the chord oracle exposes the non-convexity)."""
+  cls, n = L['cls'], L['n']
+  if cls == 'IDevice2':
+    ph = [dy(rng, -2, 0, 2) for _ in range(n)]
+    pl = [v - lg.pick(rng, [F(1), F(-1, 2), F(-1), F(1, 2)]) for v in ph]      # some slots with p_l > p_h
+    L['p_h'], L['p_l'] = ph, [min(v, F(0)) for v in pl]
+  elif cls == 'CDevice2':
+    L['p_l'] = L['p_h'] + lg.pick(rng, [F(1, 2), F(-1, 2)]) if L['p_h'] <= F(-1, 2) else L['p_l']
+  elif cls == 'CDevice':
+    L['a'] = dy(rng, -2, 2, 2)
+  elif cls == 'IDevice':
+    L['a'] = lg.gen_param(rng, n, -1, 1, 2); L['c'] = lg.gen_param(rng, n, -2, 2, 2)
+  elif cls == 'SDevice':
+    L['c1'] = dy(rng, F(1, 4), 2, 2); L['c2'] = L['c1'] * lg.pick(rng, [F(1), F(3, 2), F(2)]); L['c3'] = dy(rng, -1, 2, 2)
+  elif cls == 'TDevice':
+    L['c'] = lg.gen_param(rng, n, -2, 2, 2)
+  elif cls == 'GDevice':
+    L['bounds'] = [(-abs(a) - 1, abs(b)) for a, b in L['bounds']]
+  return L
+
+
 def gen_cases(rng, tier):
-  n = {'quick': 300, 'thorough': 5000, 'search': 120}[tier]
+  n = {'quick': 300, 'thorough': 5000, 'search': 160}[tier]
   out = []
   i = 0
   while len(out) < n:
     i += 1
     L = lg.gen_leaf(rng, cls=CLASSES[i % len(CLASSES)])
+    if tier == 'search' and i % 2 == 0:
+      L = adversarial(rng, L)
+      try:
+        lg.build(L)        # rejected by the validators (as it should be): nothing to test
+      except Exception:
+        continue
     if L['cls'] == 'GDevice':
       cc = L['cost_coeffs']
       polys = cc if isinstance(cc[0], list) else [cc] * L['n']
